@@ -178,6 +178,77 @@ def run(ctx):
             elif isinstance(st, ast.AugAssign) and isinstance(st.target, ast.Attribute) and st.target.attr in ("text", "tail"):
                 r.check("C04.6", isinstance(st.op, ast.Add), "etree::%s::%s += ..." % (nm, norm(st.target)[-30:]),
                         "%s:%d" % (m.module.rel, st.lineno), "text is combined with %s" % type(st.op).__name__)
+    # ---- C04.6b: text is *moved* by reparentChildren: the source's text is cleared on every path after it has been copied
+    m = et_el.methods["reparentChildren"]
+    cfg = CFG(m.node)
+    copies = [n for n in cfg.stmt_nodes() if n.kind == "stmt" and isinstance(n.ast, ast.AugAssign) and
+              isinstance(n.ast.target, ast.Attribute) and n.ast.target.attr in ("text", "tail") and norm(n.ast.value) == "self._element.text"]
+    if not copies:
+        raise AnalysisError("etree Element.reparentChildren no longer copies self._element.text")
+
+    def clears(n):
+        return n.kind == "stmt" and isinstance(n.ast, ast.Assign) and norm(n.ast.targets[0]) == "self._element.text" and \
+            isinstance(n.ast.value, ast.Constant) and n.ast.value.value in ("", None)
+    for cpy in copies:
+        bad = cfg.must_follow([cpy], clears)
+        r.check("C04.6", not bad, "etree::reparentChildren::source-text-cleared::%s" % norm(cpy.ast.target)[-24:], "%s:%d" % (m.module.rel, cpy.ast.lineno),
+                "Element.reparentChildren copies the element's text to the new parent but does not clear it on the old one: the text "
+                "appears twice in the tree (the DOM back-end moves the text node)", detail={"copy": norm(cpy.ast)})
+    # ---- C04.8 hasContent counts every child (comments included) and the text
+    r.rule("C04.8", "hasContent is true for any child node or text in both back-ends; the DOM attribute wrapper raises KeyError for a missing name", floor=3)
+    hc = et_el.methods.get("hasContent")
+    if hc is None:
+        raise AnalysisError("etree Element.hasContent vanished")
+    rets = [x for x in walk_no_nested(hc.node) if isinstance(x, ast.Return)]
+    src = norm(rets[0].value) if len(rets) == 1 and rets[0].value is not None else ""
+    atoms = set()
+    v = rets[0].value if len(rets) == 1 else None
+    if isinstance(v, ast.Call) and norm(v.func) == "bool" and len(v.args) == 1:
+        v = v.args[0]
+    if isinstance(v, ast.BoolOp) and isinstance(v.op, ast.Or):
+        atoms = {norm(x) for x in v.values}
+    text_atoms = {"self._element.text"}
+    child_atoms = {"len(self._element)", "self._childNodes", "len(self._childNodes)", "len(self._element) > 0"}
+    filtered = any(isinstance(x, (ast.GeneratorExp, ast.ListComp)) and (x.generators[0].ifs or not isinstance(x.elt, ast.Name) and "Comment" in norm(x))
+                   for x in ast.walk(hc.node))
+    r.idiom("C04.8", bool(atoms & text_atoms) and bool(atoms & child_atoms) and atoms <= text_atoms | child_atoms, "etree::hasContent", hc.where,
+            "etree hasContent `%s` not recognised" % src,
+            wrong=[(filtered, "etree Element.hasContent filters the children it counts (`%s`): an element whose only child is a comment "
+                              "counts as empty, so the newline after <pre><!--c--> is dropped; the DOM back-end counts every child" % src[:90]),
+                   (bool(atoms) and not (atoms & text_atoms), "etree Element.hasContent ignores the element's text"),
+                   (bool(atoms) and not (atoms & child_atoms) and not filtered, "etree Element.hasContent ignores the element's children")],
+            detail={"expr": src})
+    dh = dm_el.methods.get("hasContent")
+    if dh is None:
+        raise AnalysisError("dom NodeBuilder.hasContent vanished")
+    dsrc = [norm(s) for s in dh.node.body if not (isinstance(s, ast.Expr) and isinstance(s.value, ast.Constant))]
+    r.idiom("C04.8", dsrc in (["return self.element.hasChildNodes()"], ["return bool(self.element.childNodes)"], ["return len(self.element.childNodes) > 0"]),
+            "dom::hasContent", dh.where, "dom hasContent %s not recognised" % dsrc)
+    # the attribute wrapper is a MutableMapping without __contains__: `name in attributes` works through __getitem__ raising KeyError
+    al = ctx.repo.module("treebuilders/dom.py").find_class("getDomBuilder.AttrList")
+    if al is None:
+        raise AnalysisError("dom AttrList vanished")
+    gi = al.methods.get("__getitem__")
+    if gi is None:
+        raise AnalysisError("dom AttrList.__getitem__ vanished")
+    if "__contains__" in al.methods:
+        r.ok("C04.8", "dom::AttrList.__getitem__", gi.where, detail={"contains": "own __contains__"})
+    else:
+        p = gi.params()[1]
+        rets = [x for x in walk_no_nested(gi.node) if isinstance(x, ast.Return) and x.value is not None]
+        def raises_on_missing(v):
+            return any(isinstance(s, ast.Subscript) and norm(s.slice) == p for s in ast.walk(v))
+        def defaulting(v):
+            return any(isinstance(c, ast.Call) and isinstance(c.func, ast.Attribute) and c.func.attr in ("get", "getAttribute", "getAttributeNS")
+                       for c in ast.walk(v)) and not raises_on_missing(v)
+        explicit = any(isinstance(x, ast.Raise) and "KeyError" in norm(x) for x in walk_no_nested(gi.node))
+        r.idiom("C04.8", bool(rets) and (explicit or all(raises_on_missing(x.value) for x in rets)), "dom::AttrList.__getitem__", gi.where,
+                "dom AttrList.__getitem__ not recognised",
+                wrong=[(bool(rets) and not explicit and any(defaulting(x.value) for x in rets),
+                        "dom AttrList.__getitem__ returns a default for a missing attribute instead of raising KeyError: the Mapping "
+                        "protocol's `in` (used to merge attributes of a repeated <html>/<body> tag) then reports every name as present "
+                        "and new attributes are never added")],
+                detail={"returns": [norm(x.value) for x in rets]})
     # ---- C04.3b: `childNodes` is a property in the etree back-end (getter returns the shadow list, setter clears both
     # lists): mutating the returned list in place changes the shadow list only
     n3b = 0
@@ -286,6 +357,13 @@ def thorough(ctx):
 def mutants():
     from ..selftest import TextMutant as T
     return [
+        T("reparent-keeps-text", "treebuilders/etree.py", "            self._element.text = \"\"\n            base.Node.reparentChildren(self, newParent)",
+          "            base.Node.reparentChildren(self, newParent)", "C04.6"),
+        T("hascontent-no-comments", "treebuilders/etree.py", "            return bool(self._element.text or len(self._element))",
+          "            return bool(self._element.text or [c for c in self._element if c.tag is not ElementTreeCommentType])", "C04.8"),
+        T("hascontent-no-text", "treebuilders/etree.py", "            return bool(self._element.text or len(self._element))",
+          "            return bool(len(self._element))", "C04.8"),
+        T("attrlist-getattribute", "treebuilders/dom.py", "                return self.element.attributes[name].value", "                return self.element.getAttribute(name)", "C04.8"),
         T("insertBefore-no-shadow", "treebuilders/etree.py",
           "            self._element.insert(index, node._element)\n            self._childNodes.insert(index, node)\n",
           "            self._element.insert(index, node._element)\n", "C04.3"),
